@@ -224,9 +224,9 @@ Proof. intros H. unfold unsubscribe_ev. rewrite H. reflexivity. Qed.
 End generic.
 
 (* ---- the index contract ---------------------------------------------------------------- *)
-Record IxSpec {I : Type} (X : ixops I) (abs : I -> list (list N * N)) (inv : I -> Prop) : Prop := {
+Record IxSpec {I : Type} (X : ixops I) (abs : I -> list (list N * N)) (inv : I -> Prop) (okf : list N -> Prop) : Prop := {
   ixs_empty : inv (ix_empty X) /\ abs (ix_empty X) = [];
-  ixs_sub : forall f s t, inv t ->
+  ixs_sub : forall f s t, inv t -> okf f ->
     inv (ix_subscribe X f s t) /\ forall p, In p (abs (ix_subscribe X f s t)) <-> In p (abs t) \/ p = (f, s);
   ixs_unsub : forall f s t, inv t ->
     inv (ix_unsubscribe X f s t) /\ forall p, In p (abs (ix_unsubscribe X f s t)) <-> In p (abs t) /\ p <> (f, s);
@@ -243,11 +243,11 @@ Proof.
 Qed.
 
 (* the specification index meets the contract by construction *)
-Theorem held_ix_spec : IxSpec held_ix (fun h => h) (fun _ => True).
+Theorem held_ix_spec : IxSpec held_ix (fun h => h) (fun _ => True) (fun _ => True).
 Proof.
   constructor.
   - split; [exact Logic.I | reflexivity].
-  - intros f s t _. split; [exact Logic.I|]. intros p. cbn.
+  - intros f s t _ _. split; [exact Logic.I|]. intros p. cbn.
     destruct (existsb (hpair_eqb (f, s)) t) eqn:E.
     + apply existsb_exists in E. destruct E as (x & Hx & E). apply hpair_eqb_eq in E. subst x.
       split; [auto | intros [H|H]; [exact H | subst; exact Hx]].
